@@ -162,7 +162,7 @@ class Builtins:
     def unpack(self, v, n, st, node):
         if isinstance(v, PyV) and v.kind == "tuple":
             if len(v.data) != n:
-                raise Unsupported("unpack arity", node)
+                return None
             return list(v.data)
         if isinstance(v, SV) and v.ty.kind == "tuple":
             name = self.cx.sorts.sort(v.ty)
@@ -531,6 +531,8 @@ class Builtins:
         S = self.cx.sorts
         a = args
         B = lambda t: SV(t, T.BOOL)
+        if name == "tbl":
+            return ex.dict_self(a[0], st)
         if name == "same":
             x, y = a
             if x.ty != y.ty:
